@@ -212,7 +212,11 @@ static void segv_handler(int sig, siginfo_t *si, void *ucv)
 		for (int i = 0; i < n_cand; i++) {
 			mod[0] = 0;
 			__sanitizer_symbolize_pc(cand[i], "%m", mod, sizeof mod);
-			if (i == n_cand - 1 || !strcmp(mod, self)) { __sanitizer_symbolize_pc(cand[i], "%f", fn, sizeof fn); if (!strcmp(mod, self)) break; }
+			if (i == n_cand - 1 || !strcmp(mod, self)) {
+				__sanitizer_symbolize_pc(cand[i], "%f", fn, sizeof fn);
+				if (mc_replaying()) { char loc[300]; __sanitizer_symbolize_pc(cand[i], "%f at %s:%l", loc, sizeof loc); fprintf(stderr, "[crash site] %s\n", loc); }
+				if (!strcmp(mod, self)) break;
+			}
 		}
 		if (n_cache < 32) { cache[n_cache].pc = pc; snprintf(cache[n_cache].fn, sizeof cache[n_cache].fn, "%s", fn); n_cache++; }
 	}
